@@ -89,3 +89,91 @@ func runListeners(r *vh.Run, rng *vh.RNG, name string, t *chainx.Tree) {
 	c.Info = map[string]any{"batches": len(batches), "listeners": nl}
 	r.Add(c)
 }
+
+// runListenerChurn: listeners come and go between submissions (cancel an EARLIER registration,
+// then register a new one — not last-in-first-out). Every listener must be told exactly the tips
+// of the changes that happened while it was registered; a cancelled one nothing more; a new one
+// must not displace another. Oracle only.
+func runListenerChurn(r *vh.Run, rng *vh.RNG, name string, t *chainx.Tree) {
+	best := 0
+	for _, l := range t.Leaves() {
+		if t.AllValid(l) && t.Blocks[l].Height > t.Blocks[best].Height {
+			best = l
+		}
+	}
+	path := t.PathFromRoot(best)
+	if len(path) < 4 {
+		return
+	}
+	nd := t.Net.MustNode()
+	c := &vh.Case{Name: name, Tags: []string{"listeners-churn"}, Nontrivial: true, Key: name}
+	type lst struct {
+		id     int
+		got    []types.ChainIndex
+		want   []types.ChainIndex
+		cancel func()
+		live   bool
+	}
+	var all []*lst
+	register := func() *lst {
+		l := &lst{id: len(all), live: true}
+		l.cancel = nd.CM.OnReorg(func(ci types.ChainIndex) { l.got = append(l.got, ci) })
+		all = append(all, l)
+		return l
+	}
+	for i := 0; i < 2+rng.Intn(3); i++ {
+		register()
+	}
+	steps := 0
+	for k := 0; k < len(path); {
+		n := 1 + rng.Intn(2)
+		if k+n > len(path) {
+			n = len(path) - k
+		}
+		before := nd.CM.Tip()
+		if res := c01.Submit(nd, t.Get(path[k:k+n])); res != "ok" {
+			c.Oracle("listener-scenario-submission-failed", "AddBlocks(%v) -> %s", path[k:k+n], res)
+		}
+		k += n
+		if tip := nd.CM.Tip(); tip != before {
+			for _, l := range all {
+				if l.live {
+					l.want = append(l.want, tip)
+				}
+			}
+		}
+		// churn: cancel a live listener that is NOT the most recently registered one, then register
+		// a new one (sometimes two)
+		var live []*lst
+		for _, l := range all {
+			if l.live {
+				live = append(live, l)
+			}
+		}
+		if len(live) >= 2 && rng.Chance(2, 3) {
+			v := live[rng.Intn(len(live)-1)]
+			v.cancel()
+			v.live = false
+			register()
+			if rng.Chance(1, 3) {
+				register()
+			}
+			steps++
+		}
+	}
+	show := func(l []types.ChainIndex) string {
+		s := make([]string, len(l))
+		for i, ci := range l {
+			s[i] = idxStr(t, ci)
+		}
+		return fmt.Sprint(s)
+	}
+	for _, l := range all {
+		if show(l.got) != show(l.want) {
+			c.Oracle("listener-churn-wrong-notifications", "listener %d (registered %d-th, cancelled=%v) received tips %s, the tips that changed while it was registered were %s", l.id, l.id, !l.live, show(l.got), show(l.want))
+		}
+	}
+	c.Op(fmt.Sprintf("listener-churn %d listeners %d churn steps", len(all), steps), "ok")
+	c.Info = map[string]any{"listeners": len(all), "churn_steps": steps}
+	r.Add(c)
+}
